@@ -1,6 +1,6 @@
 (* C02loop — Gallina model of crates/samlang-optimization/src/loop_invariant_code_motion.rs.  Definitions only.
-   On the fragment of C02deep/Syntax.v: IsPointer / IndexedAccess / Cast are SPrim; StructInit, ClosureInit,
-   LateInit* are outside the fragment. *)
+   On the fragment of C02deep/Syntax.v: IsPointer / IndexedAccess / Cast are SPrim; ClosureInit is outside the
+   fragment. *)
 From Coq Require Import ZArith NArith List Bool.
 Import ListNotations.
 From SV Require Import Common.Int32 C02deep.Syntax C02deep.Passes.
@@ -21,6 +21,9 @@ Definition licm_step_g (old_div : bool) (acc : list stmt * list stmt * set) (st 
       if is_inv e ninv then (st :: h, i, ninv) else (h, st :: i, x :: ninv)
   | SBin x op e1 e2 =>
       if (old_div || negb (is_divmod op)) && is_inv e1 ninv && is_inv e2 ninv then (st :: h, i, ninv) else (h, st :: i, x :: ninv)
+  | SStruct x _ es =>
+      if forallb (fun e => is_inv e ninv) es then (st :: h, i, ninv) else (h, st :: i, x :: ninv)
+  | SLateDecl x | SLateAssign x _ => (h, st :: i, x :: ninv)
   | SCall _ _ ret => (h, st :: i, opt_names ret ++ ninv)
   | SIf _ _ _ fas => (h, st :: i, rev (map t_name fas) ++ ninv)
   | SSIf _ _ _ | SBreak _ => (h, st :: i, ninv)
